@@ -53,6 +53,16 @@ M = {
     'c06-constant-str': ('C06', [(SRC + 'translators/cell_translator.py', "code = repr(cell.value) if cell.value is not None else 'self.EmptyCell()'",
                                   "code = (repr(cell.value) if not isinstance(cell.value, str) or '\\\\' not in cell.value else '\"' + cell.value + '\"') if cell.value is not None else 'self.EmptyCell()'")],
                          'text constants containing a backslash are emitted between plain double quotes'),
+    'c11-bool-numeric': ('C11', [(CTX, "            if type(i) in [float, int] or (with_string_digits", "            if isinstance(i, (float, int)) or (with_string_digits")],
+                         'numeric filter by isinstance: TRUE/FALSE and blank objects inside areas are folded'),
+    'c11-countblank-zero': ('C11', [(CTX, 'empty = [elem for elem in flatten_list if elem is None or elem == ""]', 'empty = [elem for elem in flatten_list if elem is None or elem == "" or elem == 0 and elem is not False]')],
+                            'COUNTBLANK also counts zeros'),
+    'c11-flatten-drops-nested-tail': ('C11', [(CTX, "            if isinstance(i, list):\n                result = result + self._flatten_list(i)", "            if isinstance(i, list):\n                result = result + self._flatten_list(i[:6])")],
+                                      'areas with more than 6 rows lose the rest when flattened'),
+    'c11-and-any': ('C11', [(CTX, "    def _and(self, flatten_list: List):\n        return all(flatten_list)", "    def _and(self, flatten_list: List):\n        return all(flatten_list[:2])")],
+                    'AND looks at its first two arguments only'),
+    'c11-text-digits-numeric': ('C11', [(CTX, "def _only_numeric_list(flatten_list: List, with_string_digits: bool = False):", "def _only_numeric_list(flatten_list: List, with_string_digits: bool = True):")],
+                                'numeric-looking text inside areas is folded as if it were a number'),
 }
 
 
